@@ -201,7 +201,47 @@ func colorDomain(s string) verdict {
 		case "linear-gradient(red, blue)", "linear-gradient(#000, #fff)", "radial-gradient(red, blue)", "linear-gradient(45deg, red, blue)", "linear-gradient(to right, red 0%, blue 100%)", "radial-gradient(circle, #fff 10%, #000)":
 			return vValid
 		}
-		return vGray // the gradient grammar is not specified precisely
+		// a gradient is made of colour stops (`<colour> [<n>%]`), optionally after a direction
+		// (linear: `to <side>`, `<n>deg`; radial: `circle`, `ellipse`): one whose stop colour is not
+		// a colour is not a valid value, whatever the rest looks like
+		if !strings.HasSuffix(s, ")") {
+			return vGray
+		}
+		body := s[strings.IndexByte(s, '(')+1 : len(s)-1]
+		if strings.ContainsAny(body, "()") {
+			return vGray
+		}
+		parts := strings.Split(body, ",")
+		first := strings.TrimSpace(parts[0])
+		linear := strings.HasPrefix(l, "linear")
+		if (linear && (strings.HasPrefix(first, "to ") || strings.HasSuffix(first, "deg"))) || (!linear && (first == "circle" || first == "ellipse")) {
+			parts = parts[1:]
+		}
+		if len(parts) < 2 {
+			return vGray
+		}
+		allValid := true
+		for _, st := range parts {
+			f := strings.Fields(st)
+			if len(f) == 0 || len(f) > 2 {
+				return vGray
+			}
+			switch colorDomain(f[0]) {
+			case vInvalid:
+				return vInvalid
+			case vGray:
+				allValid = false
+			}
+			if len(f) == 2 {
+				if n, ok := isCanonInt(strings.TrimSuffix(f[1], "%")); !ok || !strings.HasSuffix(f[1], "%") || n < 0 || n > 100 {
+					allValid = false
+				}
+			}
+		}
+		if allValid {
+			return vValid
+		}
+		return vGray // the rest of the gradient grammar is not specified precisely
 	}
 	switch s {
 	case "", "notacolor", "12345", "rgb(1,2,3)", "#", "red;", "re d", "<red>", "\"red\"":
@@ -441,11 +481,37 @@ var numericProbes = []string{"-1", "0", "1", "2", "7", "8", "9", "10", "11", "15
 var boolProbes = []string{"true", "false", "TRUE", "False", "t", "f", "1", "0", "yes", "no", "on", "", "2", "truee", "null"}
 var colorProbes = []string{"red", "RED", "Red", "blue", "rebeccapurple", "transparent", "PapayaWhip", "#fff", "#FFF", "#ffffff", "#f0ff3a", "#ffff", "#fffff", "#fffffff", "#ffffffff", "#ggg", "#", "fff", "notacolor", "", "12345", "rgb(1,2,3)", "linear-gradient(red, blue)", "linear-gradient(#000, #fff)", "radial-gradient(red, blue)", "linear-gradient(45deg, red, blue)", "linear-gradient(red)", "linear-gradient()", "linear-gradient(red, blue", "linear-gradient(to right, red 0%, blue 100%)", "radial-gradient(circle, #fff 10%, #000)", "conic-gradient(red, blue)", "re d", "red;", "<red>"}
 
+// gradientProbes: both gradient kinds, with and without a direction, two or three stops, with
+// a stop that is not a colour in every position (and in none).
+var gradientProbes = func() []string {
+	var out []string
+	bad := []string{"notacolor", "#ggg", "#12345"}
+	for _, kind := range []string{"linear", "radial"} {
+		dirs := []string{"", "to right, ", "45deg, ", "to bottom left, "}
+		if kind == "radial" {
+			dirs = []string{"", "circle, ", "ellipse, "}
+		}
+		for di, d := range dirs {
+			out = append(out, kind+"-gradient("+d+"red, blue)", kind+"-gradient("+d+"#fff 10%, #000 90%, orange)")
+			for pos := 0; pos < 3; pos++ {
+				stops := []string{"red", "#00f 50%", "orange"}
+				stops[pos] = bad[(pos+di)%len(bad)]
+				out = append(out, kind+"-gradient("+d+strings.Join(stops, ", ")+")")
+				if pos < 2 {
+					out = append(out, kind+"-gradient("+d+strings.Join([]string{stops[0], stops[1]}, ", ")+")")
+				}
+			}
+		}
+	}
+	return out
+}()
+
 func probesFor(spec *attrSpec) []string {
 	var out []string
 	switch {
 	case strings.Contains(spec.attr, "color") || spec.attr == "style.fill" || spec.attr == "style.stroke":
 		out = append(out, colorProbes...)
+		out = append(out, gradientProbes...)
 	case spec.attr == "style.fill-pattern":
 		out = append(out, fillPatterns...)
 		out = append(out, "DOTS", "Lines", "stripes", "", "dot", "none ")
